@@ -19,12 +19,15 @@ inductive Order where
   | vlr | vrl | lvr | rvl | lrv | rlv | ascending | descending | other
   deriving DecidableEq, Repr, Inhabited
 
-/-- One API call.  The state is three tables `(a, b, c)`: calls act on `a`; `swap` exchanges `a` and `b`,
-`swapC` exchanges `a` and `c` (so that histories can build both operands of `Equal`); `selectMatch` stores
-the table it returns in `b`, `partitionMatch` stores the matched table in `b` and the unmatched one in `c`,
-so that histories can go on to use (and mutate) every derived table.  `allUntil n` ranges over
-`All()` and breaks after `n` pairs (`0` = never); `equalOther` is `Equal` against a table of another
-implementation type holding the same pairs (the Go code answers `false` whenever the dynamic types differ). -/
+/-- One API call.  The state is three tables `(a, b, c)`, **each constructed with its own comparator and its
+own value equality** (`NewBST(cmpKey, eqVal)` three times with possibly different arguments): calls act on
+`a`; `swap` exchanges `a` and `b`, `swapC` exchanges `a` and `c` (so that histories can build both operands
+of `Equal`, with the same or with different comparators); `selectMatch` stores the table it returns in `b`,
+`partitionMatch` stores the matched table in `b` and the unmatched one in `c` (these tables inherit the
+comparator and the value equality of the receiver), so that histories can go on to use (and mutate) every
+derived table.  `allUntil n` ranges over `All()` and breaks after `n` pairs (`0` = never); `equal` is
+`a.Equal(b)`, `equalSelf` is `a.Equal(a)`; `equalOther` is `Equal` against a table of another implementation
+type holding the same pairs (the Go code answers `false` whenever the dynamic types differ). -/
 inductive Op (K V : Type) where
   | put (k : K) (v : V)
   | delete (k : K)
@@ -49,6 +52,7 @@ inductive Op (K V : Type) where
   | allUntil (limit : Nat)
   | traverse (o : Order) (limit : Nat)
   | equal
+  | equalSelf
   | equalOther
   | anyMatch (p : K → V → Bool)
   | allMatch (p : K → V → Bool)
@@ -125,75 +129,100 @@ def includes (cmp : K → K → Int) (eqVal : V → V → Bool) (m₁ m₂ : Map
     | some w => eqVal p.2 w
     | none => false)
 
-/-- `Equal`: the two maps hold the same key-values -/
-def equal (cmp : K → K → Int) (eqVal : V → V → Bool) (m₁ m₂ : Map K V) : Bool :=
-  includes cmp eqVal m₁ m₂ && includes cmp eqVal m₂ m₁
+/-- `m₁.Equal(m₂)`: the two maps hold the same key-values.  `cmp₁` is the comparator of the receiver `m₁`,
+`cmp₂` the comparator of the argument `m₂` (a key is looked up in a map with that map's own comparator);
+the values are compared with the receiver's `eqVal`.  For lawful comparators the answer does not depend on
+them (`Spec.equal_comparator_free` in `Proofs/C01Spec.lean`, theorem `C01_equal_comparator_free`). -/
+def equal (cmp₁ cmp₂ : K → K → Int) (eqVal : V → V → Bool) (m₁ m₂ : Map K V) : Bool :=
+  includes cmp₂ eqVal m₁ m₂ && includes cmp₁ eqVal m₂ m₁
+
+/-- `Equal` said without any comparator: every pair of `m₁` has its key in `m₂` with an `eqVal`-equal
+value, and vice versa (keys compared with `=`). -/
+def SamePairs (eqVal : V → V → Bool) (m₁ m₂ : Map K V) : Prop :=
+  (∀ p ∈ m₁, ∃ q ∈ m₂, q.1 = p.1 ∧ eqVal p.2 q.2 = true) ∧
+  (∀ q ∈ m₂, ∃ p ∈ m₁, p.1 = q.1 ∧ eqVal q.2 p.2 = true)
 
 /-- a visitor that stops after `limit` pairs (`0` = never stops) sees this prefix -/
 def takeLim (limit : Nat) (l : List (K × V)) : List (K × V) :=
   if limit = 0 then l else l.take limit
 
-abbrev State (K V : Type) := Map K V × Map K V × Map K V
+/-- an abstract table: the comparator and the value equality it was constructed with, and the pairs it
+holds (ascending in its own comparator) -/
+structure Tab (K V : Type) where
+  cmp : K → K → Int
+  eqVal : V → V → Bool
+  map : Map K V
+
+/-- the same table holding other pairs -/
+def Tab.set (t : Tab K V) (m : Map K V) : Tab K V := { t with map := m }
+
+/-- `New…(cmp, eqVal)` -/
+def Tab.new (cmp : K → K → Int) (eqVal : V → V → Bool) : Tab K V := ⟨cmp, eqVal, []⟩
+
+abbrev State (K V : Type) := Tab K V × Tab K V × Tab K V
 
 /-- the abstract state after a call -/
-def next (cmp : K → K → Int) (s : State K V) : Op K V → State K V
-  | .put k v => (upsert cmp k v s.1, s.2)
-  | .delete k => (remove cmp k s.1, s.2)
-  | .deleteMin => (s.1.tail, s.2)
-  | .deleteMax => (s.1.dropLast, s.2)
-  | .deleteAll => ([], s.2)
+def next (s : State K V) : Op K V → State K V
+  | .put k v => (s.1.set (upsert s.1.cmp k v s.1.map), s.2)
+  | .delete k => (s.1.set (remove s.1.cmp k s.1.map), s.2)
+  | .deleteMin => (s.1.set s.1.map.tail, s.2)
+  | .deleteMax => (s.1.set s.1.map.dropLast, s.2)
+  | .deleteAll => (s.1.set [], s.2)
   | .swap => (s.2.1, s.1, s.2.2)
   | .swapC => (s.2.2, s.2.1, s.1)
-  | .selectMatch p => (s.1, s.1.filter (fun x => p x.1 x.2), s.2.2)
-  | .partitionMatch p => (s.1, s.1.filter (fun x => p x.1 x.2), s.1.filter (fun x => !p x.1 x.2))
+  | .selectMatch p => (s.1, s.1.set (s.1.map.filter (fun x => p x.1 x.2)), s.2.2)
+  | .partitionMatch p =>
+    (s.1, s.1.set (s.1.map.filter (fun x => p x.1 x.2)), s.1.set (s.1.map.filter (fun x => !p x.1 x.2)))
   | _ => s
 
 /-- the results the abstract map admits for a call.  All are determined except: `FirstMatch` (any
 held pair satisfying the predicate; the code returns the first in its own pre-order), `Traverse` in
 the six structural orders (some enumeration of the held pairs, cut where the visitor stops) and
 `Height` (the subject of C15). -/
-def admits (cmp : K → K → Int) (eqVal : V → V → Bool) (s : State K V) : Op K V → Out K V → Prop
+def admits (s : State K V) : Op K V → Out K V → Prop
   | .put _ _, o => o = .unit
-  | .delete k, o => o = .optV (get cmp k s.1)
-  | .deleteMin, o => o = .optKV (first s.1)
-  | .deleteMax, o => o = .optKV (last s.1)
+  | .delete k, o => o = .optV (get s.1.cmp k s.1.map)
+  | .deleteMin, o => o = .optKV (first s.1.map)
+  | .deleteMax, o => o = .optKV (last s.1.map)
   | .deleteAll, o => o = .unit
   | .swap, o => o = .unit
   | .swapC, o => o = .unit
-  | .size, o => o = .nat s.1.length
-  | .isEmpty, o => o = .bool s.1.isEmpty
+  | .size, o => o = .nat s.1.map.length
+  | .isEmpty, o => o = .bool s.1.map.isEmpty
   | .height, o => ∃ h, o = .nat h
-  | .get k, o => o = .optV (get cmp k s.1)
-  | .min, o => o = .optKV (first s.1)
-  | .max, o => o = .optKV (last s.1)
-  | .floor k, o => o = .optKV (floor cmp k s.1)
-  | .ceiling k, o => o = .optKV (ceiling cmp k s.1)
-  | .select i, o => o = .optKV (select s.1 i)
-  | .rank k, o => o = .nat (rank cmp k s.1)
-  | .range lo hi, o => o = .list (range cmp lo hi s.1)
-  | .rangeSize lo hi, o => o = .int (range cmp lo hi s.1).length
-  | .all, o => o = .list s.1
-  | .allUntil limit, o => o = .list (takeLim limit s.1)
+  | .get k, o => o = .optV (get s.1.cmp k s.1.map)
+  | .min, o => o = .optKV (first s.1.map)
+  | .max, o => o = .optKV (last s.1.map)
+  | .floor k, o => o = .optKV (floor s.1.cmp k s.1.map)
+  | .ceiling k, o => o = .optKV (ceiling s.1.cmp k s.1.map)
+  | .select i, o => o = .optKV (select s.1.map i)
+  | .rank k, o => o = .nat (rank s.1.cmp k s.1.map)
+  | .range lo hi, o => o = .list (range s.1.cmp lo hi s.1.map)
+  | .rangeSize lo hi, o => o = .int (range s.1.cmp lo hi s.1.map).length
+  | .all, o => o = .list s.1.map
+  | .allUntil limit, o => o = .list (takeLim limit s.1.map)
   | .traverse ord limit, o =>
     match ord with
-    | .lvr | .ascending => o = .list (takeLim limit s.1)
-    | .rvl | .descending => o = .list (takeLim limit s.1.reverse)
+    | .lvr | .ascending => o = .list (takeLim limit s.1.map)
+    | .rvl | .descending => o = .list (takeLim limit s.1.map.reverse)
     | .other => o = .list []
-    | _ => ∃ l, l.Perm s.1 ∧ o = .list (takeLim limit l)
-  | .equal, o => o = .bool (equal cmp eqVal s.1 s.2.1)
+    | _ => ∃ l, l.Perm s.1.map ∧ o = .list (takeLim limit l)
+  | .equal, o => o = .bool (equal s.1.cmp s.2.1.cmp s.1.eqVal s.1.map s.2.1.map)
+  | .equalSelf, o => o = .bool (equal s.1.cmp s.1.cmp s.1.eqVal s.1.map s.1.map)
   | .equalOther, o => o = .bool false
-  | .anyMatch p, o => o = .bool (s.1.any (fun x => p x.1 x.2))
-  | .allMatch p, o => o = .bool (s.1.all (fun x => p x.1 x.2))
+  | .anyMatch p, o => o = .bool (s.1.map.any (fun x => p x.1 x.2))
+  | .allMatch p, o => o = .bool (s.1.map.all (fun x => p x.1 x.2))
   | .firstMatch p, o =>
-    (o = .optKV none ∧ ∀ x ∈ s.1, p x.1 x.2 = false) ∨ (∃ x ∈ s.1, p x.1 x.2 = true ∧ o = .optKV (some x))
-  | .selectMatch p, o => o = .list (s.1.filter (fun x => p x.1 x.2))
+    (o = .optKV none ∧ ∀ x ∈ s.1.map, p x.1 x.2 = false) ∨
+      (∃ x ∈ s.1.map, p x.1 x.2 = true ∧ o = .optKV (some x))
+  | .selectMatch p, o => o = .list (s.1.map.filter (fun x => p x.1 x.2))
   | .partitionMatch p, o =>
-    o = .list2 (s.1.filter (fun x => p x.1 x.2)) (s.1.filter (fun x => !p x.1 x.2))
+    o = .list2 (s.1.map.filter (fun x => p x.1 x.2)) (s.1.map.filter (fun x => !p x.1 x.2))
 
 /-- the abstract map admits this sequence of results for this history -/
-def accepts (cmp : K → K → Int) (eqVal : V → V → Bool) : State K V → List (Op K V) → List (Out K V) → Prop
+def accepts : State K V → List (Op K V) → List (Out K V) → Prop
   | _, [], [] => True
-  | s, op :: ops, o :: outs => admits cmp eqVal s op o ∧ accepts cmp eqVal (next cmp s op) ops outs
+  | s, op :: ops, o :: outs => admits s op o ∧ accepts (next s op) ops outs
   | _, _, _ => False
 
 end Spec
